@@ -357,3 +357,77 @@ def c_swizzle_constraints(c, w, signed):
     c.check("conjunction of the swizzle constraints <=> field[d-1:0] == pattern mod 2**d (slices tile [0,d))",
             (conj == 1) == want)
     c.check("all swizzle constraints are 1-bit nodes", all(n.width == 1 for n in nodes))
+
+
+@contract("swizzler.swizzle_field.dist", ["C15", "C09"],
+          ["vsc.model.solvegroup_swizzler_partsel.SolveGroupSwizzlerPartsel.swizzle_field"],
+          lambda tier, seed: [(n, k) for n in (1, 2, 3) for k in (1, 2)], replay="none",
+          note="dist branch of swizzle_field: 1..3 entries (ranges with symbolic bounds or single values), 1..2 dist scopes on the field")
+def c_swizzle_dist(c, n, nscopes):
+    import vsc.model.solvegroup_swizzler_partsel as SW
+    from vsc.model.field_scalar_model import FieldScalarModel
+    from vsc.model.rand_set import RandSet
+    from vsc.model.constraint_dist_scope_model import ConstraintDistScopeModel
+    from vsc.model.expr_bin_model import ExprBinModel
+    from vsc.model.expr_fieldref_model import ExprFieldRefModel
+    from vsc.model.expr_literal_model import ExprLiteralModel
+    from vsc.model.bin_expr_type import BinExprType
+    from contracts.bounds import ValStub
+
+    class Wt:
+        def __init__(self, lo, hi):
+            self.rng_lhs = ValStub(lo)
+            self.rng_rhs = ValStub(hi) if hi is not None else None
+
+    class DistC:
+        pass
+    f = FieldScalarModel("f", 8, False, True)
+    f.is_used_rand = True
+    rs = RandSet()
+    rs.add_field(f)
+    scopes = []
+    for s_i in range(nscopes):
+        d = DistC()
+        d.weights = []
+        ents = []
+        for i in range(n):
+            lo = c.fresh_int("lo", 0, 255)
+            if i % 2 == 0:
+                hi = c.fresh_int("hi", 0, 255)
+                c.assume(lo <= hi)
+            else:
+                hi = None
+            ents.append((lo, hi))
+            d.weights.append(Wt(lo, hi))
+        sc = ConstraintDistScopeModel(d)
+        sc.weight_list = [(c.fresh_int("w", 1), i) for i in range(n)]
+        tot = lift(0)
+        for wv, _ in sc.weight_list:
+            tot = tot + wv
+        sc.total_weight = tot
+        sc.ents = ents
+        scopes.append(sc)
+    rs.dist_field_m[f] = scopes
+    rs_ = GhostRandState(c)
+    sw = SW.SolveGroupSwizzlerPartsel(rs_, None)
+    ret = sw.swizzle_field(f, rs, {})
+    c.check("the dist branch requests exactly one constraint `field == value`",
+            isinstance(ret, list) and len(ret) == 1 and isinstance(ret[0], ExprBinModel) and ret[0].op is BinExprType.Eq
+            and isinstance(ret[0].lhs, ExprFieldRefModel) and ret[0].lhs.fm is f and isinstance(ret[0].rhs, ExprLiteralModel))
+    chosen = [sc for sc in scopes if any(d_[1] is sc.total_weight or True for d_ in rs_.rng.draws)]
+    v = ret[0].rhs.val().v
+    ok = []
+    for sc in scopes:
+        j = sc.target_range
+        lo, hi = sc.ents[j] if isinstance(j, int) else (None, None)
+    # the scope that was used is the one whose target_range was (re)drawn; with one scope it is scopes[0]
+    cands = []
+    for sc in scopes:
+        for j, (lo, hi) in enumerate(sc.ents):
+            cands.append(And(lift(sc.target_range) == j, v >= lo, v <= (hi if hi is not None else lo)))
+    c.check("the requested value lies inside the entry chosen by the weighted walk of one of the field's dist scopes",
+            Or(*cands))
+    c.check("the literal carries the field's width and signedness", ret[0].rhs.width() == 8 and ret[0].rhs.is_signed() is False)
+    exp_draws = (1 if nscopes > 1 else 0) + 1
+    c.check("every draw comes from the RandState (scope choice if several, weighted walk, value inside a range)",
+            exp_draws <= len(rs_.rng.draws) <= exp_draws + 1)
